@@ -1726,8 +1726,8 @@ def allclose(a, b, rtol=1e-05, atol=1e-08, equal_nan=False):
 
 
 def nan_to_num(t, nan=0.0, posinf=None, neginf=None):
-    if posinf is None and neginf is None:
-        return t  # no NaNs in this model; +-inf kept (callers in scope only pass nan=)
+    # torch semantics: NaN -> nan (none exist in this model), +inf / -inf -> posinf / neginf, by default the largest /
+    # smallest finite float32
     def f(x):
         if _isxr(x):
             x = _xr(x)
